@@ -273,6 +273,11 @@ def run(tier, replay=None):
     from . import c10
     nctor = c10.representation_obligations(rep, cfgs=('K0',))
     rep.floor('constructors analysed', nctor, 5)
+    # ---- likewise "the language is empty" is read as Language(None): that is the wildcard only if every spelling of `und` is stored as None and
+    # nothing else is (the subtag validators and the empty-language API, shared with C15); two equal subtags must have one stored form
+    from . import validators, subtag_api
+    validators.run_all(prog, rep, roles_wanted={'Language', 'Script', 'Region', 'Variant'})
+    subtag_api.language_empty(prog, rep, validators.load_roles())
     rep.count('decision paths analysed', total_paths)
     rep.floor('decision paths', total_paths, 200)
     rep.explanation = ('Finite truth tables decided symbolically: each matches body is explored path by path (callees inlined, every branch on a flag, on the '
